@@ -25,7 +25,8 @@ PENDING_WRITERS = {
 
 def rule_TR1(rep, prog):
     rid = rep.rule("C15-TR1", "dispatch_source_merge_data: DATA_ADD is an atomic add, DATA_OR an atomic or, DATA_REPLACE an atomic store of the caller's value, "
-                   "each followed on every path by a wakeup with MAKE_DIRTY; cancelled/released sources are ignored first", floor=4)
+                   "each the only write of the pending word on its path and followed on every path by a wakeup with MAKE_DIRTY; cancelled/released sources are ignored "
+                   "first", floor=7)
     k = consts.get(["DISPATCH_EVFILT_CUSTOM_ADD", "DISPATCH_EVFILT_CUSTOM_OR", "DISPATCH_EVFILT_CUSTOM_REPLACE", "DISPATCH_WAKEUP_MAKE_DIRTY"], unit="source")
     fn = prog.fn("dispatch_source_merge_data")
     rep.saw(fn)
@@ -48,6 +49,14 @@ def rule_TR1(rep, prog):
                         "dispatch_source_merge_data must merge the caller's value into ds_pending_data with a single atomic %s for this source type (found %s): "
                         "a non-atomic or different operation loses concurrent merges" % (rmw or "store", [(o.op, o.d.get("rmw"), o.d.get("ord")) for o in ops]),
                         sample={"filter": hex(cv), "op": rmw or "store"})
+            # ... and it is the ONLY write of the pending word on the way to the wake-up (a case that falls through into the next one merges, then overwrites)
+            allw = [i for i in fn.all_insts() if (prog.fields(i) & PD) and i.op in ("atomicrmw", "store", "cmpxchg")]
+            for o in ops:
+                extra = [x for x in allw if x is not o and fn.inst_reaches(o, x) and any(fn.inst_reaches(x, w_) for w_ in wk)]
+                rep.require(rid, not extra, (extra[0].loc if extra else o.loc), fn.name, "merge-followed-by-second-write:%s" % (rmw or "store"),
+                            "after the %s of this source type dispatch_source_merge_data goes on to write ds_pending_data again (%s) before the wake-up: an atomic OR that "
+                            "falls through into the REPLACE case is overwritten with the last mask alone, so coalesced merges lose the earlier bits"
+                            % (rmw or "store", [(x.op, x.d.get("rmw")) for x in extra]), sample={"filter": hex(cv)})
             for o in ops:
                 good, bad = fn.must_pass(o, wk)
                 flags_ok = all((arg_const(fn, w, 2) or 0) & k["DISPATCH_WAKEUP_MAKE_DIRTY"] for w in wk)
@@ -322,6 +331,11 @@ def run(rep, tier="quick", srcdir=None, only=None):
         rule_TB6(rep, prog, Q(srcdir))
     if want("C15-MP7"):
         rule_MP7(rep, prog)
+    if want("C06-AI14"):
+        # "merges made while the source is suspended are delivered after the matching resume": the unlock must not send the drainer back into the source's invoke
+        # function while the source is suspended (shared with C06)
+        from . import C06
+        C06.rule_AI14(rep, prog, Q(srcdir))
     if want("C06-AI3"):
         # "merges made while the source is suspended are delivered after the matching resume": a source is a lane, its suspension accounting is the
         # queue's (shared with C06)
